@@ -573,6 +573,15 @@ func (a *Agent) gatherCandidatesLocalUDPMux(ctx context.Context) error { //nolin
 		}
 
 		for _, candidateIP := range candidateIPs {
+			// Only publish candidates of the configured network types: a mux listening on an
+			// address of a family that is not enabled must not yield candidates of that family.
+			if ipAddr, validIP := netip.AddrFromSlice(candidateIP); validIP {
+				if candidateNetworkType, ntErr := determineNetworkType(udp, ipAddr); ntErr == nil &&
+					!containsNetworkType(candidateNetworkType, configuredNetworkTypes(a.networkTypes)) {
+					continue
+				}
+			}
+
 			var address string
 			var isLocationTracked bool
 			if a.mDNSMode == MulticastDNSModeQueryAndGather {
